@@ -2,10 +2,12 @@ module github.com/cloudwego/eino/verifharness
 
 go 1.21
 
-require github.com/cloudwego/eino v0.0.0
+require (
+	github.com/bytedance/sonic v1.13.2
+	github.com/cloudwego/eino v0.0.0
+)
 
 require (
-	github.com/bytedance/sonic v1.13.2 // indirect
 	github.com/bytedance/sonic/loader v0.2.4 // indirect
 	github.com/cloudwego/base64x v0.1.5 // indirect
 	github.com/dustin/go-humanize v1.0.1 // indirect
